@@ -36,7 +36,7 @@ Definition seg_and (sa sb : seg) : res inter :=
       else if Nat.eqb (degree sa) 1 && Nat.eqb (degree sb) 1 then
              match lines sa sb with
              | Some uv => Ok (IPairs [uv])
-             | None => Ok IEqual          (* the code returns tuple() here too *)
+             | None => Ok INone           (* no crossing (also parallel / collinear overlap) *)
              end
       else Err EOther                     (* curved crossings: not in MV *)
   end.
